@@ -12,9 +12,18 @@
 (*   MaxCount   every pair of adjacent octets replaced by 0xFFFF (largest    *)
 (*              two-octet count / length)                                    *)
 (*   Insert / Delete one octet at every position (shifts all later fields)   *)
+(*   Field      structure-directed (Per!PerFieldStarts of the seed's value  *)
+(*              tree gives the bit position at which every field of the     *)
+(*              encoding begins: extension bit, presence bitmap, choice     *)
+(*              index, length determinant): the octet holding a field start *)
+(*              is set to 0x80 / 0xC0 / 0xFF (extension bit set, bitmap all  *)
+(*              ones) and the following one or two octets to adversarial     *)
+(*              lengths 00, 01, 09, 7F, 80 00, 80 FF, BF FF, C1, C4, FF - a   *)
+(*              decoder taking the extension path reads them as the length; *)
+(*              and the input is cut right behind the field start            *)
 (* The cases are written as ndjson for the replayer (rec-total -replay).     *)
 (***************************************************************************)
-EXTENDS Bytes, TLC, Json
+EXTENDS Per, Json
 CONSTANTS TracePath, OutPath, Budget       \* Budget: at most this many cases per seed and fault kind (evenly spaced positions)
 VARIABLES l, out
 Seeds == ndJsonDeserialize(TracePath)
@@ -32,9 +41,24 @@ CasesOf(s) ==
       \cup {Case(s, "maxcount", i, Set1(Set1(b, i, 255), i + 1, 255)) : i \in Positions(n - 1)}
       \cup {Case(s, "insert", i, SubSeq(b, 1, i - 1) \o <<255>> \o SubSeq(b, i, n)) : i \in Positions(n)}
       \cup {Case(s, "delete", i, SubSeq(b, 1, i - 1) \o SubSeq(b, i + 1, n)) : i \in Positions(n)})
+\* structure-directed faults; FieldBudget field starts per seed (evenly spaced over the sorted positions)
+FieldBudget == Budget
+Sorted(S) == LET RECURSIVE F(_) F(T) == IF T = {} THEN <<>> ELSE LET x == CHOOSE y \in T : \A z \in T : y <= z IN <<x>> \o F(T \ {x}) IN F(S)
+PickEven(q) == IF Len(q) <= FieldBudget THEN {q[i] : i \in 1..Len(q)} ELSE {q[1 + ((k - 1) * Len(q)) \div FieldBudget] : k \in 1..FieldBudget}
+Heads == <<128, 192, 255>>
+Tails == << <<0>>, <<1>>, <<9>>, <<127>>, <<128, 0>>, <<128, 255>>, <<191, 255>>, <<193>>, <<196>>, <<255>> >>
+Overwrite(b, i, w) == Tup([j \in 1..Len(b) |-> IF j >= i /\ j < i + Len(w) THEN w[j - i + 1] ELSE b[j]])
+FieldCases(s) ==
+   IF "tree" \notin DOMAIN s THEN <<>>
+   ELSE LET b == s.bytes n == Len(b)
+            octs == PickEven(Sorted({(p \div 8) + 1 : p \in {q \in PerFieldStarts(s.tree) : q < 8 * n}}))
+        IN SetToSeq({Case(s, "field" \o ToString(Heads[h]) \o "x" \o ToString(t), i, Overwrite(b, i, <<Heads[h]>> \o Tails[t]))
+                        : i \in octs, h \in 1..Len(Heads), t \in 1..Len(Tails)}
+                    \cup {Case(s, "fieldcut", i, SubSeq(b, 1, i)) : i \in octs}
+                    \cup {Case(s, "fieldlen" \o ToString(t), i, Overwrite(b, i, Tails[t])) : i \in octs, t \in 1..Len(Tails)})
 Init == l = 1 /\ out = 0
 Next == /\ l <= Len(Seeds)
-        /\ LET cs == CasesOf(Seeds[l]) IN
+        /\ LET cs == CasesOf(Seeds[l]) \o FieldCases(Seeds[l]) IN
              /\ ndJsonSerialize(OutPath \o "." \o ToString(l), cs)
              /\ out' = out + Len(cs)
         /\ l' = l + 1
